@@ -45,6 +45,31 @@ func UnitsFor[K any](k *kinds.Kind[K], cfg *Config, seed uint64) []Unit {
 			res.Inc("units_long_history")
 		}})
 	}
+	for i := 0; i < cfg.BigHistories; i++ {
+		name := fmt.Sprintf("%s/bighist/%d", k.Name, i)
+		us = append(us, Unit{name, func(res *ev.Result) {
+			r := unitRng(seed, name)
+			s := NewSession(k, cfg, res, name)
+			pool := k.Pool(r, 1500+r.Intn(1500))
+			if k.VariantFamily != nil {
+				pool = append(pool, k.VariantFamily(r, 300)...)
+			}
+			for _, key := range pool {
+				if s.Dead {
+					return
+				}
+				s.Insert(key)
+			}
+			s.every = 1 << 30
+			for i := 0; i < 2 && !s.Dead; i++ {
+				s.After(r)
+				for j := 0; j < 30 && !s.Dead; j++ {
+					s.StepOp(r, pool, phase{n: 1, pIns: 30, pDel: 50})
+				}
+			}
+			res.Inc("units_big_history")
+		}})
+	}
 	if k.Fan != nil {
 		for i := 0; i < cfg.FanHistories; i++ {
 			name := fmt.Sprintf("%s/fanhist/%d", k.Name, i)
@@ -77,6 +102,15 @@ func UnitsFor[K any](k *kinds.Kind[K], cfg *Config, seed uint64) []Unit {
 					s.After(r)
 				}
 				res.Inc("units_fan_history")
+			}})
+		}
+		for i := 0; i < (cfg.Sweeps+1)/2; i++ {
+			name := fmt.Sprintf("%s/stalelane/%d", k.Name, i)
+			us = append(us, Unit{name, func(res *ev.Result) {
+				r := unitRng(seed, name)
+				s := NewSession(k, cfg, res, name)
+				s.RunStaleLaneWalk(r)
+				res.Inc("units_stale_lane_walk")
 			}})
 		}
 		for i := 0; i < cfg.Sweeps; i++ {
